@@ -546,12 +546,28 @@ MS_SUBMIT = FSpec("MarketShareFCNAgent.submit_orders", pre=ms_pre, post=ms_post,
                   raises={"AssertionError": lambda st, a: z3.Not(ms_some_accessible(st, a))})
 
 
+def _ms_weights_name():
+    """the weight list, found by role (robust against renaming): the one list the weighting loop appends to"""
+    import ast
+    from pyvc.src import get_src
+    fn = get_src().funcs["MarketShareFCNAgent.submit_orders"][0]
+    loops = [n for n in ast.walk(fn) if isinstance(n, ast.For)]
+    if len(loops) != 1:
+        raise Unsupported("anchor-lost: the weighting loop of MarketShareFCNAgent.submit_orders")
+    names = {n.func.value.id for n in ast.walk(loops[0]) if isinstance(n, ast.Call) and isinstance(n.func, ast.Attribute) and n.func.attr == "append" and isinstance(n.func.value, ast.Name)}
+    if len(names) != 1:
+        raise Unsupported("anchor-lost: the weight list of MarketShareFCNAgent.submit_orders")
+    return names.pop(), ast.unparse(loops[0].iter)
+
+
 def ms_loops():
+    wname, header = _ms_weights_name()
+
     def inv(st, ctx):
         i = ctx["i"]
-        w = st.env["weights"]
+        w = st.env[wname]
         return [("one weight per accessible market so far", st.length(w.term, ("real",)) == i)]
-    return {0: LoopSpec(inv, modifies=lambda st, ctx: [("len:Real", [st.env["weights"].term]), ("el:Real", [st.env["weights"].term])], header="filter_markets", name="weights")}
+    return {0: LoopSpec(inv, modifies=lambda st, ctx: [("len:Real", [st.env[wname].term]), ("el:Real", [st.env[wname].term])], header=header, name="weights")}
 
 
 @task("MarketShareFCNAgent.submit_orders", props=["C20"], functions=["MarketShareFCNAgent.submit_orders"], replay="agents")
